@@ -483,6 +483,28 @@ func c20Run(env *core.Env, idx int) core.CaseResult {
 		if !reflect.DeepEqual(c20Flatten(c.get()), want) {
 			res.Violate("get-set-not-identity "+c.name(), "validation set changed", witness(variant, nil, 0))
 		}
+		// (2b) a snapshot stays what it was: read, overwrite with a smaller set, write the snapshot back; and a set handed from one
+		// object to another does not tie the two together. Expectations are deep copies taken before the writes.
+		wantCopy, _ := oracle.Norm(want)
+		snap := c.get()
+		small := spec.SchemaValidations{}
+		small.Enum = []interface{}{"verif-other-value"}
+		c.set(small)
+		c.set(snap)
+		res.Evals++
+		res.Count("op.snapshot-overwrite-restore", 1)
+		if gotN, _ := oracle.Norm(c20Flatten(c.get())); !oracle.Equal(gotN, wantCopy) {
+			res.Violate("snapshot-not-restored "+c.name(), fmt.Sprintf("read, overwrote with a one-value enum, wrote the snapshot back: %s instead of %s", core.Abbrev(oracle.Text(gotN), 200), core.Abbrev(oracle.Text(wantCopy), 200)), witness(variant, nil, 0))
+		}
+		src, dst := c20NewCarrier(kind), c20NewCarrier(kind)
+		src.set(c20Build(core.Rng(env.Seed, "C20s", idx*16+variant), kws, mask, variant))
+		srcBefore, _ := oracle.Norm(c20Flatten(src.get()))
+		dst.set(src.get())
+		dst.set(small)
+		res.Evals++
+		if srcAfter, _ := oracle.Norm(c20Flatten(src.get())); !oracle.Equal(srcBefore, srcAfter) {
+			res.Violate("write-to-one-object-changes-another "+c.name(), fmt.Sprintf("%s -> %s", core.Abbrev(oracle.Text(srcBefore), 200), core.Abbrev(oracle.Text(srcAfter), 200)), witness(variant, nil, 0))
+		}
 		// (3) clear operations, all orders
 		families := c.families()
 		if len(families) == 0 {
@@ -619,7 +641,7 @@ func init() {
 		NumCases: func(env *core.Env) int { return 3*4096 + 2*32768 },
 		Run:      c20Run,
 		Floors: func(env *core.Env) []string {
-			return []string{"op.set", "op.get", "op.clear.number", "op.clear.string", "op.clear.array", "op.clear.object",
+			return []string{"op.set", "op.get", "op.snapshot-overwrite-restore", "op.clear.number", "op.clear.string", "op.clear.array", "op.clear.object",
 				"callbacks.0", "callbacks.1", "callbacks.2", "callbacks.3",
 				"carrier.parameter", "carrier.header", "carrier.items", "carrier.schema-validations", "carrier.schema"}
 		},
